@@ -3,6 +3,7 @@ package harness
 import (
 	"bytes"
 	"fmt"
+	"time"
 
 	"verifsim/ref"
 )
@@ -308,13 +309,16 @@ func checkCallbacks(r *Result, ci int, prop string, _ int) *Violation {
 		var wcb []Ev
 		for _, e := range r.Hist {
 			if e.C == ci && e.K == KWrite && e.Who == who && !e.Active {
+				if f, err := ref.Decode(e.PData); err == nil && f.ID == 0x8003 {
+					continue // a re-request is not a reply to a complete message: outside this clause
+				}
 				wcb = append(wcb, e)
 			}
 		}
 		var sw []Ev
 		for _, e := range r.Hist {
 			if e.C == ci && e.K == KSrvWrite && e.Err == "" {
-				if f, err := ref.Decode(e.Raw); err == nil && (f.ID == 0x8001 || f.ID == 0x8100 || f.ID == 0x8800 || f.ID == 0x9212 || f.ID == 0x8003) {
+				if f, err := ref.Decode(e.Raw); err == nil && (f.ID == 0x8001 || f.ID == 0x8100 || f.ID == 0x8800 || f.ID == 0x9212) {
 					sw = append(sw, e)
 				}
 			}
@@ -418,7 +422,26 @@ func genC06(seed uint64, tier string, idx int) *Plan {
 			id := g.randID()
 			frames = append(frames, g.mkFrame(ci, id, g.randSerial(), g.wellFormedBody(id, v19, p.Conns[ci].Phone)))
 		}
-		g.connActor(ci, frames, g.segStyle(), 5)
+		a := g.connActor(ci, frames, g.segStyle(), 5)
+		if g.r.chance(15) {
+			// idle gaps of more than 5 s: a transfer that is open at that moment makes the server write a
+			// re-request (0x8003), one more frame in the connection's numbering. In total well below 60 s.
+			budget := int64(50 * time.Second)
+			var ops []Op
+			for _, op := range a.Ops {
+				ops = append(ops, op)
+				if op.K == "send" && op.End && budget > 0 && g.r.chance(20) {
+					d := int64(time.Duration(5100+g.r.intn(9000)) * time.Millisecond)
+					if d > budget {
+						d = budget
+					}
+					budget -= d
+					ops = append(ops, Op{K: "sleep", D: d})
+				}
+			}
+			a.Ops = ops
+			g.p.Faults = append(g.p.Faults, "clock.idle_gaps")
+		}
 	}
 	p.Sched = g.sched()
 	p.MaxStep = 100000
